@@ -14,3 +14,4 @@ func (st *yieldState) stop() (fired, sites int)                   { return 0, 0 
 func (st *yieldState) recursiveReadLocks() (n, metWriter int)     { return 0, 0 }
 
 func heldByGoroutine(id uint64) (n int, known bool) { return 0, false }
+func (st *yieldState) windows() int                 { return 0 }
